@@ -9,8 +9,8 @@ from props.c09 import enc_int, BITS, SIGNED
 from mockgen import enc
 
 # user types: comparators per scope (two scopes, one type name, objects that agree in the first field only), copiers per scope
-MC_CMP = dict(scopes="ScopesGS", fns='"f"', pnames='"p"', vals="ValsObjQ", ns="1", maxexp=1, maxcalls=1, maxinst=1)
-MC_CPY = dict(scopes="ScopesGS", fns='"f"', pnames="", onames='"x"', odata="Typed1", ns="1", maxexp=1, maxcalls=1, maxinst=1)
+MC_CMP = dict(scopes="ScopesGS", fns='"f"', pnames='"p"', vals="ValsObjQ", ns="1", maxexp=1, maxcalls=1, maxinst=1, flags="FALSE")
+MC_CPY = dict(scopes="ScopesGS", fns='"f"', pnames="", onames='"x"', odata="Typed1", ns="1", maxexp=1, maxcalls=1, maxinst=1, flags="FALSE")
 MC_QUICK = [("typed", dict(fns='"f"', pnames="", rets="RetsTyped", getters="GetTyped", maxexp=1, ns="1, 2", maxcalls=2)),
             ("comparators", MC_CMP), ("copiers", MC_CPY)]
 MC_THOROUGH = [("typed", dict(fns='"f", "g"', pnames='"p"', rets="RetsTyped", getters="GetTyped", maxexp=1, ns="1, 2", maxcalls=3)),
